@@ -464,6 +464,57 @@ pub fn check(case: &Case) -> (Stats, Vec<Failure>) {
             _ => {}
         }
     }
+    // M7: forwarding to a target that receives its '?' from the captured text (a catch-all rule): the skipped
+    // marketing parameters are appended to the *substituted* target, with '&' when it already has a query
+    if cfg.ignore_marketing_query_params {
+        let mk = if cfg.marketing_query_params.iter().any(|k| k == "utm_source") {
+            Some("utm_source")
+        } else if cfg.marketing_query_params.iter().any(|k| k == "mk") {
+            Some("mk")
+        } else {
+            None
+        };
+        if let Some(mk) = mk {
+            let mut dynamic = Router::<Rule>::from_config(cfg.build());
+            let mut r = RuleSpec::simple("d1", "/dyn/@rest");
+            r.markers = vec![MarkerSpec {
+                name: "rest".to_string(),
+                regex: ".*".to_string(),
+                transformers: vec![],
+            }];
+            r.effects.target = Some("/t/@rest".to_string());
+            r.effects.status_code = Some(301);
+            dynamic.insert(r.to_rule());
+            for (query, captured, skipped) in [
+                (format!("page=2&{mk}=x"), "list?page=2", format!("{mk}=x")),
+                (format!("{mk}=x"), "list", format!("{mk}=x")),
+                ("page=2".to_string(), "list?page=2", String::new()),
+            ] {
+                let q = request_for(
+                    &built,
+                    &Url {
+                        path: "/dyn/list".to_string(),
+                        query: Some(query.clone()),
+                    },
+                );
+                let base = format!("/t/{captured}");
+                let want = if cfg.pass_marketing_query_params_to_target && !skipped.is_empty() {
+                    format!("{base}{}{skipped}", if base.contains('?') { "&" } else { "?" })
+                } else {
+                    base
+                };
+                stats.relations += 1;
+                stats.location_checked += 1;
+                let loc = location_of(&dynamic, &q, "d1");
+                if loc.as_deref() != Some(want.as_str()) {
+                    fails.push(Failure {
+                        class: "location",
+                        message: format!("M7: catch-all rule /dyn/@rest -> /t/@rest, request /dyn/list?{query}: Location {loc:?}, expected {want:?} (pass flag {})", cfg.pass_marketing_query_params_to_target),
+                    });
+                }
+            }
+        }
+    }
     (stats, fails)
 }
 
@@ -678,7 +729,7 @@ pub fn run(ctx: &Ctx, _args: &Args) -> i32 {
     finish(
         ctx,
         report,
-        "full 2^6 configuration flag cube x marketing sets {default 5 keys, {mk}, empty} x generated URLs (paths over mixed-case ASCII, unreserved and reserved punctuation, space, quotes, '+', '|', brackets, angle brackets, %20 %2B %2F %C3%A9 %FF, raw non-ASCII, characters the http URI parser rejects; queries with repeated keys, empty values, keys without '=', '&&', trailing '&', '?' alone); relations M1 self-match, M2 separation, M3 permutation, M4 marketing parameters + Location forwarding, M5 ASCII case swap, M6 idempotence (base URL and every variant, incl. Location after two re-normalisations), M1' the same literal rule declaring an unused marker answers identically. non-trivial = distinct (config, URL) with >= 2 parameters or a character some encode set touches",
+        "full 2^6 configuration flag cube x marketing sets {default 5 keys, {mk}, empty} x generated URLs (paths over mixed-case ASCII, unreserved and reserved punctuation, space, quotes, '+', '|', brackets, angle brackets, %20 %2B %2F %C3%A9 %FF, raw non-ASCII, characters the http URI parser rejects; queries with repeated keys, empty values, keys without '=', '&&', trailing '&', '?' alone); relations M1 self-match, M2 separation, M3 permutation, M4 marketing parameters + Location forwarding, M5 ASCII case swap, M6 idempotence (base URL and every variant, incl. Location after two re-normalisations), M1' the same literal rule declaring an unused marker answers identically, M7 forwarding to a catch-all target whose '?' comes from the captured text. non-trivial = distinct (config, URL) with >= 2 parameters or a character some encode set touches",
         &["the http crate's URI parser, used only to decide whether request-side normalisation was skipped (known-finding signature)", "harness-side form decoding / canonical query used only for generation and known-finding signatures"],
         started,
         1000,
